@@ -12,6 +12,7 @@ pub mod c07;
 pub mod c08;
 pub mod c09;
 pub mod c10;
+pub mod c11;
 pub mod c12;
 pub mod c13;
 pub mod c14;
@@ -22,7 +23,7 @@ pub mod c18;
 pub mod c19;
 pub mod c20;
 
-pub const ALL: &[&str] = &["C01", "C02", "C03", "C04", "C05", "C06", "C07", "C08", "C09", "C10", "C12", "C13", "C14", "C15", "C16", "C17", "C18", "C19", "C20"];
+pub const ALL: &[&str] = &["C01", "C02", "C03", "C04", "C05", "C06", "C07", "C08", "C09", "C10", "C11", "C12", "C13", "C14", "C15", "C16", "C17", "C18", "C19", "C20"];
 
 /// replay: Some(path) -> re-run the stored case (its "part" field selects the part)
 pub fn dispatch(prop: &str, tier: Tier, seed: u64, replay: Option<&str>) -> Option<Vec<PartReport>> {
@@ -39,6 +40,7 @@ pub fn dispatch(prop: &str, tier: Tier, seed: u64, replay: Option<&str>) -> Opti
         "C08" => c08::check(tier, seed, r),
         "C09" => c09::check(tier, seed, r),
         "C10" => c10::check(tier, seed, r),
+        "C11" => c11::check(tier, seed, r),
         "C12" => c12::check(tier, seed, r),
         "C13" => c13::check(tier, seed, r),
         "C14" => c14::check(tier, seed, r),
